@@ -313,7 +313,6 @@ def gen (size : Nat) : G (Module × Opts × String) := do
   let name ← genName 20
   let spd ← range 1 31
   let bpm ← if (← chance 85) then range 32 255 else range 256 1000
-  let avoidEnd ← chance 94
   let xseed ← next
   let vseed ← next
   let mseed ← next
@@ -321,13 +320,15 @@ def gen (size : Nat) : G (Module × Opts × String) := do
   let modeKind ← below 4
   let emptyZero ← chance 50
   let eis ← match (← below 3) with | 0 => pure 29 | 1 => pure 33 | _ => pure 263
-  -- the two known end-of-file defects of the loader are generated only in a few percent of the cases
-  let endBad (e : Nat) : Bool :=
-    !(decide (Xm.EndOk { name := [], chn := chn, orders := [], pats := [], ins := ins.toList, smps := smps.toList, spd := 0, bpm := 0 }
-                        { emptyInsSize := e }))
-  let eis := if avoidEnd && endBad eis then 33 else eis
-  if avoidEnd && endBad eis then
-    ins := ins.push { name := [], subs := [] }
+  -- regression witnesses of two repaired end-of-file defects of the loader (size classes 7 and 8):
+  -- a final sample-less instrument with the plain 29-byte header and a name; a final sample of 5 bytes
+  if size = 7 then
+    ins := ins.push { name := str "LAST", subs := [] }
+  if size = 8 then
+    ins := ins.push { name := str "TAIL", subs := [{ sid := smps.size, vol := 64, pan := 128, xpo := 0, fin := 0 }],
+                      keymap := List.replicate 121 0 }
+    smps := smps.push { name := str "five", len := 5, lps := 0, lpe := 0, flg := 0, pcm := [1, 2, 3, 4, 5] }
+  let eis := if size = 7 then 29 else eis
   let nins := ins.size
   let trk ← match (← below 3) with
     | 0 => pure (str "FastTracker v2.00   ") | 1 => pure (str "OpenMPT 1.31.07.00  ") | _ => genName 20
@@ -472,7 +473,6 @@ def cmdGen (fmt id : String) (seed size : Nat) : IO Unit := do
       | some m' => if m' = Xm.loaded m then "ok" else "differ"
     IO.println s!"rt {rt}"
     IO.println s!"wf {decide (Xm.WellFormed m o)}"
-    IO.println s!"excluded {decide (¬ Xm.EndOk m o)}"
     emit (dumpModule (Xm.loaded m))
   | "it" =>
     let ((m, o, desc), _) := (GenIt.gen size).run (seedState seed)
